@@ -44,12 +44,21 @@ def byteAsRuneString (b : Nat) : Bytes := encodeUTF8 b
 
 /-! ## token.Keywords / LookupIdent -/
 
-def keywordTable : List (String × TokType) :=
-  [("function", .function), ("let", .let_), ("if", .if_), ("else", .else_), ("while", .while_),
-   ("for", .for_), ("return", .return_), ("true", .true_), ("false", .false_), ("null", .null)]
+/-- `token.Keywords` (keys as byte strings, so that the kernel can evaluate lookups) -/
+def keywordTable : List (Bytes × TokType) :=
+  [([102, 117, 110, 99, 116, 105, 111, 110], .function),  -- function
+   ([108, 101, 116], .let_),  -- let
+   ([105, 102], .if_),  -- if
+   ([101, 108, 115, 101], .else_),  -- else
+   ([119, 104, 105, 108, 101], .while_),  -- while
+   ([102, 111, 114], .for_),  -- for
+   ([114, 101, 116, 117, 114, 110], .return_),  -- return
+   ([116, 114, 117, 101], .true_),  -- true
+   ([102, 97, 108, 115, 101], .false_),  -- false
+   ([110, 117, 108, 108], .null)]  -- null
 
 def lookupIdent (lit : Bytes) : TokType :=
-  match keywordTable.find? (fun kv => strBytes kv.1 == lit) with
+  match keywordTable.find? (fun kv => kv.1 == lit) with
   | some kv => kv.2
   | none => .ident
 
